@@ -12,7 +12,9 @@
 (* A didChange for a URL that has no document state creates an entry without a         *)
 (* language id, removes it again and publishes nothing useful (empty diagnostics).     *)
 (* VersionGuard = FALSE is the code as it is: whichever handler reaches `set` last     *)
-(* wins, whatever order the client sent the messages in.                               *)
+(* wins, whatever order the client sent the messages in.  (The hypothetical guard       *)
+(* orders texts only: a didOpen that copied the configuration before a                  *)
+(* didChangeConfiguration ran still builds its linter with the old one.)                *)
 (*   didSave             :  the editor has written its buffer to disk; the server       *)
 (*                          re-reads the file, then cfg -> load -> set -> pub           *)
 (*   add-word command /                                                                *)
@@ -20,39 +22,57 @@
 (*                          the text held in the document state (the repaired code);    *)
 (*                          FALSE: from the file on disk, as it was - an unsaved buffer *)
 (*                          is then replaced by the stale file contents.                *)
+(*   Configuration.  The client holds a configuration (clientCfg); every document        *)
+(*   update pulls it (workspace/configuration) into the server's copy (serverCfg), but a  *)
+(*   document's linter is built with the configuration only when the document state is    *)
+(*   created (docCfg).  didChangeConfiguration stores the announced settings, rebuilds     *)
+(*   the linter of EVERY document under the lock, then re-processes and publishes each.    *)
+(*   ConfigRebuilds = FALSE is a deviation a seeded change introduced: the linters of      *)
+(*   open documents are kept (settings merged into them), so an override that is removed   *)
+(*   again stays in force.                                                                 *)
 EXTENDS Naturals, Sequences, FiniteSets, TLC
 
-CONSTANTS Urls, Texts, MaxMsgs, MaxInFlight, VersionGuard, RefreshFromMemory
+CONSTANTS Urls, Texts, Cfgs, MaxMsgs, MaxInFlight, VersionGuard, RefreshFromMemory, ConfigRebuilds
 
 VARIABLES clientText,   \* newest text the client sent per url ("none": not open)
           docText,      \* server's document state per url ("none": no entry); with the version it came from
-          published,    \* what the last publishDiagnostics for the url was computed from ("empty" | text)
+          published,    \* what the last publishDiagnostics for the url was computed from: [t, c] (t = "none": empty)
+          clientCfg,    \* the configuration the client holds (and answers workspace/configuration with)
+          serverCfg,    \* the server's copy
+          docCfg,       \* the configuration each document's linter was built with
           disk,         \* contents of the file behind each url ("none": never saved)
           hs,           \* in-flight handlers: sequence of [kind, u, t, ver, pc]
           sent,         \* number of messages sent
           overlapped    \* history flag: two handlers for the same url were in flight together
-lsvars == <<clientText, docText, published, disk, hs, sent, overlapped>>
+lsvars == <<clientText, docText, published, clientCfg, serverCfg, docCfg, disk, hs, sent, overlapped>>
+cfgvars == <<clientCfg, serverCfg, docCfg>>
+C0 == CHOOSE c \in Cfgs : TRUE
+Empty == [t |-> "none", c |-> "-"]
 
 LInit == /\ clientText = [u \in Urls |-> "none"] /\ docText = [u \in Urls |-> [t |-> "none", v |-> 0]]
-         /\ published = [u \in Urls |-> "empty"] /\ disk = [u \in Urls |-> "none"]
+         /\ published = [u \in Urls |-> Empty] /\ disk = [u \in Urls |-> "none"]
+         /\ clientCfg = C0 /\ serverCfg = C0 /\ docCfg = [u \in Urls |-> C0]
          /\ hs = <<>> /\ sent = 0 /\ overlapped = FALSE
 
-SameUrlInFlight(u) == \E i \in DOMAIN hs : hs[i].u = u
+SameUrlInFlight(u) == \E i \in DOMAIN hs : hs[i].u = u \/ hs[i].kind = "config" \/ u = "*"
 Start(h) == /\ sent < MaxMsgs /\ Len(hs) < MaxInFlight
             /\ hs' = Append(hs, h) /\ sent' = sent + 1
             /\ overlapped' = (overlapped \/ SameUrlInFlight(h.u))
-SendOpen(u, t) == clientText[u] = "none" /\ Start([kind |-> "open", u |-> u, t |-> t, ver |-> sent + 1, pc |-> "cfg"])
-                  /\ clientText' = [clientText EXCEPT ![u] = t] /\ UNCHANGED <<docText, published, disk>>
-SendChange(u, t) == clientText[u] # "none" /\ Start([kind |-> "change", u |-> u, t |-> t, ver |-> sent + 1, pc |-> "cfg"])
-                    /\ clientText' = [clientText EXCEPT ![u] = t] /\ UNCHANGED <<docText, published, disk>>
+SendOpen(u, t) == clientText[u] = "none" /\ Start([kind |-> "open", c |-> C0, todo |-> <<>>, u |-> u, t |-> t, ver |-> sent + 1, pc |-> "cfg"])
+                  /\ clientText' = [clientText EXCEPT ![u] = t] /\ UNCHANGED <<docText, published, disk, cfgvars>>
+SendChange(u, t) == clientText[u] # "none" /\ Start([kind |-> "change", c |-> C0, todo |-> <<>>, u |-> u, t |-> t, ver |-> sent + 1, pc |-> "cfg"])
+                    /\ clientText' = [clientText EXCEPT ![u] = t] /\ UNCHANGED <<docText, published, disk, cfgvars>>
 \* the editor saves its buffer, then notifies
-SendSave(u) == clientText[u] # "none" /\ Start([kind |-> "save", u |-> u, t |-> "disk", ver |-> sent + 1, pc |-> "read"])
-               /\ disk' = [disk EXCEPT ![u] = clientText[u]] /\ UNCHANGED <<clientText, docText, published>>
+SendSave(u) == clientText[u] # "none" /\ Start([kind |-> "save", c |-> C0, todo |-> <<>>, u |-> u, t |-> "disk", ver |-> sent + 1, pc |-> "read"])
+               /\ disk' = [disk EXCEPT ![u] = clientText[u]] /\ UNCHANGED <<clientText, docText, published, cfgvars>>
 \* an add-to-dictionary command or a configuration change: the document is re-processed
-SendRefresh(u) == clientText[u] # "none" /\ Start([kind |-> "refresh", u |-> u, t |-> "?", ver |-> sent + 1, pc |-> "read"])
-                  /\ UNCHANGED <<clientText, docText, published, disk>>
-SendClose(u) == clientText[u] # "none" /\ Start([kind |-> "close", u |-> u, t |-> "none", ver |-> sent + 1, pc |-> "close"])
-                /\ clientText' = [clientText EXCEPT ![u] = "none"] /\ UNCHANGED <<docText, published, disk>>
+SendRefresh(u) == clientText[u] # "none" /\ Start([kind |-> "refresh", c |-> C0, todo |-> <<>>, u |-> u, t |-> "?", ver |-> sent + 1, pc |-> "read"])
+                  /\ UNCHANGED <<clientText, docText, published, disk, cfgvars>>
+\* the user changes a setting: the client stores it and announces it (the notification carries the settings)
+SendConfig(c) == c # clientCfg /\ Start([kind |-> "config", c |-> c, todo |-> <<>>, u |-> "*", t |-> "?", ver |-> sent + 1, pc |-> "store"])
+                 /\ clientCfg' = c /\ UNCHANGED <<clientText, docText, published, disk, serverCfg, docCfg>>
+SendClose(u) == clientText[u] # "none" /\ Start([kind |-> "close", c |-> C0, todo |-> <<>>, u |-> u, t |-> "none", ver |-> sent + 1, pc |-> "close"])
+                /\ clientText' = [clientText EXCEPT ![u] = "none"] /\ UNCHANGED <<docText, published, disk, cfgvars>>
 
 Remove(i) == SubSeq(hs, 1, i - 1) \o SubSeq(hs, i + 1, Len(hs))
 Advance(i, pc) == hs' = [hs EXCEPT ![i].pc = pc]
@@ -64,42 +84,70 @@ StepRead(i) ==
          fromDisk == h.kind = "save" \/ ~RefreshFromMemory \/ docText[h.u].t = "none"
          t == IF fromDisk THEN disk[h.u] ELSE docText[h.u].t
      IN hs' = [hs EXCEPT ![i].pc = (IF t = "none" THEN "pub" ELSE "cfg"), ![i].t = t]
-  /\ UNCHANGED <<clientText, docText, published, disk, sent, overlapped>>
-StepCfg(i) == hs[i].pc = "cfg" /\ Advance(i, "load") /\ UNCHANGED <<clientText, docText, published, disk, sent, overlapped>>
-StepLoad(i) == hs[i].pc = "load" /\ Advance(i, "set") /\ UNCHANGED <<clientText, docText, published, disk, sent, overlapped>>
+  /\ UNCHANGED <<clientText, docText, published, disk, sent, overlapped, cfgvars>>
+\* pull_config: the client's current configuration becomes the server's; the handler copies it for later
+StepCfg(i) == /\ hs[i].pc = "cfg" /\ hs' = [hs EXCEPT ![i].pc = "load", ![i].c = clientCfg]
+              /\ serverCfg' = clientCfg
+              /\ UNCHANGED <<clientText, docText, published, disk, sent, overlapped, clientCfg, docCfg>>
+StepLoad(i) == hs[i].pc = "load" /\ Advance(i, "set") /\ UNCHANGED <<clientText, docText, published, disk, sent, overlapped, cfgvars>>
 \* update_document under the doc_state lock
 StepSet(i) ==
   /\ hs[i].pc = "set" /\ Advance(i, "pub")
   /\ LET h == hs[i] cur == docText[h.u] IN
-     docText' = IF h.kind # "open" /\ cur.t = "none" THEN docText                  \* no language id: entry dropped again
+     /\ docText' = (IF h.kind # "open" /\ cur.t = "none" THEN docText                  \* no language id: entry dropped again
                 ELSE IF VersionGuard /\ cur.v > h.ver THEN docText                   \* (hypothetical) stale update ignored
-                ELSE [docText EXCEPT ![h.u] = [t |-> h.t, v |-> h.ver]]
-  /\ UNCHANGED <<clientText, published, disk, sent, overlapped>>
+                ELSE [docText EXCEPT ![h.u] = [t |-> h.t, v |-> h.ver]])
+     \* a new document state gets a linter with the configuration the handler copied; an existing one keeps its linter
+     /\ docCfg' = IF h.kind = "open" /\ cur.t = "none" THEN [docCfg EXCEPT ![h.u] = h.c] ELSE docCfg
+  /\ UNCHANGED <<clientText, published, disk, sent, overlapped, clientCfg, serverCfg>>
 \* publish_diagnostics: lints whatever the document state holds at this moment
 StepPub(i) ==
   /\ hs[i].pc = "pub" /\ hs' = Remove(i)
-  /\ published' = [published EXCEPT ![hs[i].u] = IF docText[hs[i].u].t = "none" THEN "empty" ELSE docText[hs[i].u].t]
-  /\ UNCHANGED <<clientText, docText, disk, sent, overlapped>>
+  /\ published' = [published EXCEPT ![hs[i].u] = IF docText[hs[i].u].t = "none" THEN Empty ELSE [t |-> docText[hs[i].u].t, c |-> docCfg[hs[i].u]]]
+  /\ UNCHANGED <<clientText, docText, disk, sent, overlapped, cfgvars>>
 StepClose(i) ==
   /\ hs[i].pc = "close" /\ hs' = Remove(i)
   /\ docText' = [docText EXCEPT ![hs[i].u] = [t |-> "none", v |-> 0]]
-  /\ published' = [published EXCEPT ![hs[i].u] = "empty"]
-  /\ UNCHANGED <<clientText, disk, sent, overlapped>>
+  /\ published' = [published EXCEPT ![hs[i].u] = Empty]
+  /\ UNCHANGED <<clientText, disk, sent, overlapped, cfgvars>>
+\* didChangeConfiguration: store the announced settings ...
+StepStore(i) == /\ hs[i].pc = "store" /\ Advance(i, "rebuild") /\ serverCfg' = hs[i].c
+                /\ UNCHANGED <<clientText, docText, published, disk, sent, overlapped, clientCfg, docCfg>>
+\* ... rebuild every document's linter under the lock and note the documents ...
+RECURSIVE SeqOf(_)
+SeqOf(S) == IF S = {} THEN <<>> ELSE LET x == CHOOSE y \in S : TRUE IN <<x>> \o SeqOf(S \ {x})
+StepRebuild(i) ==
+  /\ hs[i].pc = "rebuild"
+  /\ LET open == {u \in Urls : docText[u].t # "none"} IN
+     /\ docCfg' = IF ConfigRebuilds THEN [u \in Urls |-> IF u \in open THEN serverCfg ELSE docCfg[u]] ELSE docCfg
+     /\ hs' = IF open = {} THEN Remove(i) ELSE [hs EXCEPT ![i].pc = "each", ![i].todo = SeqOf(open)]
+  /\ UNCHANGED <<clientText, docText, published, disk, sent, overlapped, clientCfg, serverCfg>>
+\* ... then, document by document: re-process from memory (which pulls the configuration again) and publish
+StepEach(i) ==
+  /\ hs[i].pc = "each"
+  /\ LET u == Head(hs[i].todo) rest == Tail(hs[i].todo) IN
+     /\ serverCfg' = clientCfg
+     /\ published' = [published EXCEPT ![u] = IF docText[u].t = "none" THEN Empty ELSE [t |-> docText[u].t, c |-> docCfg[u]]]
+     /\ hs' = IF rest = <<>> THEN Remove(i) ELSE [hs EXCEPT ![i].todo = rest]
+  /\ UNCHANGED <<clientText, docText, disk, sent, overlapped, clientCfg, docCfg>>
 
 LNext == \/ \E u \in Urls, t \in Texts : SendOpen(u, t) \/ SendChange(u, t)
          \/ \E u \in Urls : SendClose(u) \/ SendSave(u) \/ SendRefresh(u)
+         \/ \E c \in Cfgs : SendConfig(c)
          \/ \E i \in DOMAIN hs : StepRead(i) \/ StepCfg(i) \/ StepLoad(i) \/ StepSet(i) \/ StepPub(i) \/ StepClose(i)
+                                  \/ StepStore(i) \/ StepRebuild(i) \/ StepEach(i)
 
 Quiescent == hs = <<>>
 \* C09: once everything has been processed, the last word on each document is its newest text
 LastWord == Quiescent => \A u \in Urls :
-   published[u] = (IF clientText[u] = "none" THEN "empty" ELSE clientText[u])
+   published[u] = (IF clientText[u] = "none" THEN Empty ELSE [t |-> clientText[u], c |-> clientCfg])
 \* ... which the code guarantees only when handlers for one document never overlap
 LastWordUnlessOverlapped == LastWord \/ overlapped
 
 \* Liveness: every message is eventually handled (checked without a state constraint, under weak
 \* fairness of the handler steps): the server always comes to rest
 HandlerSteps == \E i \in DOMAIN hs : StepRead(i) \/ StepCfg(i) \/ StepLoad(i) \/ StepSet(i) \/ StepPub(i) \/ StepClose(i)
+                                       \/ StepStore(i) \/ StepRebuild(i) \/ StepEach(i)
 LSpec == LInit /\ [][LNext]_lsvars /\ WF_lsvars(HandlerSteps)
 ComesToRest == []<>(hs = <<>>)
 =============================================================================
